@@ -1,0 +1,17 @@
+//go:build verif
+
+// Contracts for command sunlight, checked by /verif's govc (comment-only file).
+package main
+
+// log.v3.json is what monitors build the log's public verifier from (skylight's health check and partial-aftersun do
+// exactly that): the published name must be the origin the log signs checkpoints with, the published key the log's
+// key, and a recorded final tree exactly the tree and timestamp the sequencer stopped at.
+//@ assume func sunlight-cmd.updateMetadata#param.setLogInfo params name info
+//@ func sunlight-cmd.updateMetadata props C11 C20
+//@   requires cc != nil && cc.Key != nil
+//@   call sunlight-cmd.updateMetadata#param.setLogInfo requires [C11,C20] published-name-is-the-signing-origin: c_info.Name == cc.Name && c_name == lc.ShortName
+//@   call sunlight-cmd.updateMetadata#param.setLogInfo requires [C11,C20] published-key-is-the-logs-key: c_info.PublicKeyDER == pkix && c_info.PublicKeyPEM == string(pemKey)
+//@   call sunlight-cmd.updateMetadata#param.setLogInfo requires [C20] final-tree-is-the-stopped-tree: e != nil ==> (c_info.Status == "readonly" && c_info.FinalTree.Size == e.FinalTree.N && c_info.FinalTree.RootHash == bytes(e.FinalTree.Hash) && c_info.FinalTree.Timestamp == e.FinalTimestamp)
+//@   call x509.MarshalPKIXPublicKey requires [C11,C20] key-published-is-the-configured-key: c_pub == iface(&cc.Key.PublicKey)
+//@   call json.MarshalIndent requires [C11,C20] uploads-what-was-registered: cast(c_v, "sunlight-cmd.logInfo") == log
+//@   call ctlog.Backend.Upload requires [C11,C20] uploaded-as-the-logs-metadata-object: c_key == "log.v3.json" && c_data == j
